@@ -1,5 +1,6 @@
 import Nstd.Future.Handshake
 import Nstd.Future.SpawnFailLemmas
+import Nstd.Future.CallModel
 /-
   Property C10 — the `Future<A>` / `Call<A>` layer (include/nstd/Future.hpp, Call.hpp), round 3:
   result object lifetime, argument capture, restart of a Future object.
@@ -99,6 +100,44 @@ theorem flags_after_join {cfg : Config} {s : State} (hwf : cfg.WellFormed) (h : 
   · left; exact ⟨h1, by rw [h1]; decide⟩
   · right; exact ⟨h1, by rw [h1]; decide⟩
 
+/-! ## every arity of Call.hpp (round 4): `CallModel.lean` -/
+
+/-- the model's call record as an instance of the generic capture record: `Args2` with the harness body `a*100+b` -/
+def toArgs2 (r : CallRec) : CallModel.ArgsRec Int Int :=
+  { fn := fun l => l.getD 0 0 * 100 + l.getD 1 0, vals := [r.a, r.b], z := r.fut }
+
+theorem model_record_is_args2 (r : CallRec) : (toArgs2 r).call = r.a * 100 + r.b := by
+  simp [toArgs2, CallModel.ArgsRec.call]
+
+/-- **`args_as_at_start` for every arity the header provides** (and any other): for a list of argument references of ANY length,
+    the record built by `start()` holds the values the caller's variables had then; `call()` applies the function to exactly
+    those; a later state `σ'` of the caller's variables is irrelevant, and the record is determined by (and determines) the
+    values of the referenced variables. -/
+theorem args_as_at_start_all_arities {V A : Type} (σ σ' : CallModel.Store V) (fn : List V → A) (refs : List CallModel.Loc)
+    (z : Nat) :
+    (CallModel.capture σ fn refs z).call = fn (refs.map σ) ∧
+    (CallModel.capture σ fn refs z).vals.length = refs.length ∧
+    (∀ i (h : i < refs.length), (CallModel.capture σ fn refs z).vals[i]? = some (σ (refs[i]))) ∧
+    ((∀ l ∈ refs, σ' l = σ l) → CallModel.capture σ' fn refs z = CallModel.capture σ fn refs z) ∧
+    (CallModel.capture σ fn refs z = CallModel.capture σ' fn refs z → ∀ l ∈ refs, σ l = σ' l) :=
+  ⟨(CallModel.call_sees_values_at_start σ σ' fn refs z).1, (CallModel.call_sees_values_at_start σ σ' fn refs z).2.1,
+   (CallModel.call_sees_values_at_start σ σ' fn refs z).2.2.1, (CallModel.call_sees_values_at_start σ σ' fn refs z).2.2.2,
+   CallModel.capture_injective_in_the_arguments σ σ' fn refs z⟩
+
+/-- member-function starts (`Member<C>::ArgsN`): arguments as at `start()`, the object as it is when the call runs -/
+theorem member_args_as_at_start {V O A : Type} (σ : CallModel.Store V) (obj : CallModel.Loc) (fn : O → List V → A)
+    (refs : List CallModel.Loc) (z : Nat) (heapAtCall : CallModel.Loc → O) :
+    (CallModel.captureMember σ obj fn refs z).call heapAtCall = fn (heapAtCall obj) (refs.map σ) := rfl
+
+/-- composition with the pool model: whatever the record holds, the record a worker executes for call `c` IS the record `start()`
+    allocated for `c`, alive and unchanged (record identity and immutability do not depend on the payload) — and for the modelled
+    payload (`Args2`) its `call()` is the generic one. -/
+theorem executed_record_is_the_started_record {cfg : Config} {s : State} (h : Reach cfg s) {t : Tid} {th : Thread} {fr : Frame}
+    {c : Nat} (hth : s.threads t = some th) (hfr : fr ∈ th.stack) (hp : inProc c fr = true) :
+    ∃ r, s.calls c = some r ∧ s.everCalls c = some r ∧ (toArgs2 r).call = r.a * 100 + r.b ∧ (toArgs2 r).vals = [r.a, r.b] := by
+  obtain ⟨r, h1, h2⟩ := exec_record_alive h hth hfr hp
+  exact ⟨r, h1, h2, model_record_is_args2 r, rfl⟩
+
 /-- non-vacuity of `result_store_before_destroy`: a well-formed configuration whose client destroys a future un-joined -/
 example : ({ q := 2, minT := 0, maxT := 3, lazy := false, tick := 0, spurious := 0, repaired := true,
              scripts := [[.start 0 11 5, .destroy 0, .start 0 12 6]] } : Config).WellFormed := by
@@ -110,10 +149,11 @@ example : ({ q := 2, minT := 0, maxT := 3, lazy := false, tick := 0, spurious :=
 
 /-
 OPEN:
-  * `Call.hpp` arities: the model's record carries two captured values (`Args2`); `Args0/1/3/4/5` and the `Member<C>` variants
-    differ only in the number of captured values and in `call()` dereferencing a member pointer; they are exercised on the
-    real code by the correspondence run (harness ops `t`/`T`, all arities of the header, by-value capture checked by overwriting the
-    caller's variables right after `start()`), not modelled separately.
+  * `Call.hpp`: the shape of all `ArgsN` / `Member<C>::ArgsN` records is modelled for any number of arguments (`CallModel.lean`,
+    `args_as_at_start_all_arities`, `member_args_as_at_start`); the POOL model still carries the `Args2` instance (`toArgs2`), so the
+    composition "the record a worker executes is the started record" is proved with that payload and is payload-independent only by
+    inspection of `Model.lean` (no step looks into `a`, `b` except `pCall`/`pStore`); the hand translation header → `CallModel` is tied
+    by the harness request `arity` (all 22 overloads, by-value capture checked on the real code).
   * the result object's lifetime is expressed through program counters (`destroyF f` = the point where `result` and the
     Signal are destroyed) rather than through a live/dead flag in `Fut`: adding the flag means editing `Model.lean`
     (whole-chain rebuild); the harness keeps that ledger on the real object (tracked result type `Res`).
